@@ -653,13 +653,25 @@ func BuildSimpleAt(pages [][]Placed, origin [2]int, width, height int) ([]byte, 
 	return buildSimple(pages, origin, width, height, 0)
 }
 
+// BuildSimpleSized is BuildSimple with a page size of its own for each page (sizes[i] = width, height of page i).
+func BuildSimpleSized(pages [][]Placed, sizes [][2]int) ([]byte, error) {
+	return buildSimpleSizes(pages, [2]int{}, 0, 0, 0, sizes)
+}
+
 func buildSimple(pages [][]Placed, SimpleOrigin [2]int, width, height, w int) ([]byte, error) {
+	return buildSimpleSizes(pages, SimpleOrigin, width, height, w, nil)
+}
+
+func buildSimpleSizes(pages [][]Placed, SimpleOrigin [2]int, width, height, w int, sizes [][2]int) ([]byte, error) {
 	f := &pdfw.File{EOL: "lf"}
 	rev := pdfw.Revision{XRef: "table", Root: pdfw.Ref{Num: 1}}
 	kids := pdfw.Arr{}
 	n := 4
 	var items []pdfw.Item
-	for _, pg := range pages {
+	for pi, pg := range pages {
+		if sizes != nil {
+			width, height = sizes[pi][0], sizes[pi][1]
+		}
 		var b strings.Builder
 		b.WriteString("BT\n")
 		for _, p := range pg {
